@@ -527,3 +527,44 @@ def generate(ctx):
                   b"\x02" + (S.p).to_bytes(32, "big"), (2 ** 255 - 1).to_bytes(32, "little")):
             ctx.run("bad_key_bytes", [i, b], "bad-bytes", trivial=(b == b""))
     ctx.note_exhaustive("refusal clauses: every (encoder, foreign key class) pair of the listed 17 encoders x 5 key classes")
+    gen_link(ctx)
+
+
+# ------------------------------------------------------------------ linked models (Extract/Api_link.v)
+# Stellar addresses with CRC-16/XMODEM computed INSIDE the model (Model/LinkCrc16.v): Props/C09.v xlm_dec_enc_concrete
+# is about these functions; the crc16_xmodem oracle is not asked.
+
+def _crc16_ref(b):
+    """CRC-16/XMODEM from its definition (polynomial 0x1021, init 0, MSB first), independent of crcmod/binascii"""
+    c = 0
+    for x in b:
+        c ^= x << 8
+        for _ in range(8):
+            c = ((c << 1) ^ 0x1021) & 0xFFFF if c & 0x8000 else (c << 1) & 0xFFFF
+    return c.to_bytes(2, "big")
+
+
+def _impl_crc16(a):
+    from bip_utils.utils.crypto import XModemCrc
+    return XModemCrc.QuickDigest(a[0])
+
+
+FUNCS["crc16_xmodem_c"] = Func(model=lambda m, a: m.call("link.crc16_xmodem_c", a[0]), impl=_impl_crc16,
+                               direct=lambda a: None if _impl_crc16(a) == _crc16_ref(a[0]) else "XModemCrc differs from CRC-16/XMODEM")
+FUNCS["xlm_encode_c"] = Func(model=lambda m, a: m.call("link.xlm_encode_c", a[0], a[1]), impl=FUNCS["xlm_encode"].impl,
+                             direct=FUNCS["xlm_encode"].direct)
+FUNCS["xlm_decode_c"] = Func(model=lambda m, a: m.call("link.xlm_decode_c", a[0], a[1]), impl=FUNCS["xlm_decode"].impl)
+
+
+def gen_link(ctx):
+    rng = ctx.rng
+    for b in [b"", b"123456789", bytes(1), bytes(2), bytes(3), b"\xff" * 35, bytes(range(256))] + \
+            [bytes(rng.randrange(256) for _ in range(rng.choice([1, 2, 33, 34, 35, rng.randrange(80)]))) for _ in range(ctx.n(120, 2000))]:
+        ctx.run("crc16_xmodem_c", [b], "link-crc16", trivial=(b == b""))
+    for i in range(ctx.n(45, 800)):
+        e = edpub(rng.randrange(2 ** 256).to_bytes(32, "big"))
+        at = rng.choice([48, 48, 144])
+        _, r = ctx.run("xlm_encode_c", [at, e], "link")
+        if r and r[0] == "ok":
+            for t in [r[1], r[1].lower()] + mutate(r[1], rng)[:3]:
+                ctx.run("xlm_decode_c", [rng.choice([at, at, 192 - at]), t], "link-dec")
